@@ -41,6 +41,28 @@ func LockState(dump string) (parked map[string]string, progressing bool) {
 	return
 }
 
+var longWaitHdr = regexp.MustCompile(`(?m)^goroutine (\d+) \[(sync\.(?:RW)?Mutex\.[A-Za-z]+), (\d+) minutes\]:$`)
+
+// LongLockWaits: goroutines with a spine-go frame that have been waiting for one mutex for at least minMinutes
+// without interruption (the runtime prints the duration of a wait in the goroutine header once it exceeds a
+// minute). Unlike a goroutine that is merely seen parked in two dumps - it may have been through the lock many
+// times in between - such a goroutine has made no progress at all for that time.
+func LongLockWaits(dump string, minMinutes int) map[string]string {
+	out := map[string]string{}
+	for _, b := range strings.Split(dump, "\n\n") {
+		m := longWaitHdr.FindStringSubmatch(b)
+		if m == nil {
+			continue
+		}
+		var minutes int
+		fmt.Sscanf(m[3], "%d", &minutes)
+		if frames := SpineFrames(b); minutes >= minMinutes && len(frames) > 0 {
+			out[m[1]] = frames[0]
+		}
+	}
+	return out
+}
+
 // AwaitOrDiagnose waits for done. After patience it looks at the goroutines twice, 3 s apart: a
 // deadlock is reported (where != "") only if the same >= minParked goroutines are parked in locks
 // inside spine-go both times and no goroutine inside spine-go can run. Otherwise whatever is awaited
@@ -82,6 +104,22 @@ func AwaitOrDiagnose(done <-chan struct{}, patience, limit time.Duration, minPar
 				}
 			}
 			return strings.Join(u, "+"), fmt.Sprintf("not finished after %v; the same %d goroutines wait for locks inside spine-go in two dumps 3 s apart and no goroutine inside spine-go can run: %v\n%s", patience, len(p2), fs, d2), false
+		}
+		// other goroutines of the workload may keep running (readers that spin until they are told to stop) while
+		// one is stuck for good: a goroutine inside spine-go that has waited for one mutex for three minutes on end
+		if stuck := LongLockWaits(d2, 3); len(stuck) > 0 {
+			var fs []string
+			for _, f := range stuck {
+				fs = append(fs, f)
+			}
+			sort.Strings(fs)
+			var u []string
+			for i, f := range fs {
+				if i == 0 || f != fs[i-1] {
+					u = append(u, f)
+				}
+			}
+			return strings.Join(u, "+"), fmt.Sprintf("not finished; %d goroutines inside spine-go have been waiting for a mutex for at least three minutes without interruption: %v\n%s", len(stuck), fs, d2), false
 		}
 		if time.Now().After(deadline) {
 			return "", d2, true
